@@ -378,6 +378,41 @@ func (c *c15) optionalSource(ins ssa.Instruction) (ssa.Value, string) {
 	return nil, ""
 }
 
+// closureParamLoaderValue: every call of the function literal (call graph) passes, for parameter
+// idx, a value loaded from the Value field of a *…Ref of kin-openapi (non-nil after a successful load).
+func (c *c15) closureParamLoaderValue(fn *ssa.Function, idx int) bool {
+	node := c.s.CG.Nodes[fn]
+	if node == nil || len(node.In) == 0 {
+		return false
+	}
+	for _, e := range node.In {
+		if e.Site == nil {
+			return false
+		}
+		cc := e.Site.Common()
+		ai := idx
+		if cc.IsInvoke() {
+			ai = idx - 1
+		}
+		if ai < 0 || ai >= len(cc.Args) {
+			return false
+		}
+		ld, ok := cc.Args[ai].(*ssa.UnOp)
+		if !ok || ld.Op != token.MUL {
+			return false
+		}
+		fa, ok := ld.X.(*ssa.FieldAddr)
+		if !ok || !isKinType(fa.X.Type()) {
+			return false
+		}
+		owner := strings.TrimPrefix(strings.TrimPrefix(fa.X.Type().String(), "*"), kinPkg+".")
+		if fieldName(fa) != "Value" || !strings.HasSuffix(owner, "Ref") {
+			return false
+		}
+	}
+	return true
+}
+
 func (c *c15) optionalDeref() {
 	nSrc, nDeref := 0, 0
 	seq := map[string]int{}
@@ -387,9 +422,12 @@ func (c *c15) optionalDeref() {
 		if fn.Parent() == nil {
 			continue
 		}
-		for _, p := range fn.Params {
+		for pi, p := range fn.Params {
 			if !nillable(p.Type()) || !isKinType(p.Type()) || loaderNonNilElem(p.Type()) {
 				continue
+			}
+			if c.closureParamLoaderValue(fn, pi) {
+				continue // every call passes <XRef>.Value, which the loader guarantees non-nil
 			}
 			nSrc++
 			src := "callback parameter " + strings.TrimPrefix(p.Type().String(), "*"+kinPkg+".")
